@@ -2,6 +2,7 @@ package main
 
 import (
 	"bytes"
+	"syscall"
 	"context"
 	"encoding/json"
 	"fmt"
@@ -60,6 +61,23 @@ func runCLI(cs c16Case) cliResult {
 		args = append(args, "--file", docFile)
 	case "missing":
 		args = append(args, "-f", filepath.Join(j.Root, "no-such-file.md"))
+	case "devstdin":
+		// a file name that is not a regular file: /dev/stdin fed by a pipe
+		args = append(args, "--file", "/dev/stdin")
+		stdin = bytes.NewReader([]byte(cs.Doc))
+	case "fifo":
+		fifo := filepath.Join(j.Root, "doc.fifo")
+		if err := syscall.Mkfifo(fifo, 0o644); err == nil {
+			args = append(args, "--file", fifo)
+			go func() {
+				if f, err := os.OpenFile(fifo, os.O_WRONLY, 0); err == nil {
+					f.Write([]byte(cs.Doc))
+					f.Close()
+				}
+			}()
+		} else {
+			args = append(args, "--file", docFile)
+		}
 	}
 	switch cs.Target {
 	case "dir":
@@ -72,6 +90,11 @@ func runCLI(cs c16Case) cliResult {
 		args = append(args, "stray-argument")
 	case "unknown":
 		args = append([]string{cs.Cmd, "--no-such-flag"}, args[1:]...)
+	case "empty-first":
+		// an empty-string argument right after the subcommand (what a shell passes for "$UNSET"); flags follow it
+		args = append([]string{cs.Cmd, ""}, args[1:]...)
+	case "empty-last":
+		args = append(args, "")
 	}
 	var cmd *exec.Cmd
 	var so, se bytes.Buffer
@@ -341,8 +364,11 @@ func init() {
 					for _, in := range []string{"stdin", "file", "dash", "missing"} {
 						add(c16Case{Cmd: "output", Doc: d.doc, DocName: d.name, Args: args, Input: in, Stdout: "pipe"})
 					}
-					for _, ex := range []string{"stray", "unknown"} {
+					for _, ex := range []string{"stray", "unknown", "empty-first", "empty-last"} {
 						add(c16Case{Cmd: "output", Doc: d.doc, DocName: d.name, Args: args, Input: "stdin", Extra: ex, Stdout: "pipe"})
+					}
+					for _, in := range []string{"devstdin", "fifo"} {
+						add(c16Case{Cmd: "output", Doc: d.doc, DocName: d.name, Args: args, Input: in, Stdout: "pipe"})
 					}
 					if !massive {
 						for _, so := range []string{"closed", "full"} {
@@ -369,6 +395,8 @@ func init() {
 					add(c16Case{Cmd: "mkdir", Doc: d.doc, DocName: d.name, Args: args, Input: "missing", Stdout: "pipe", Target: "dir"})
 					add(c16Case{Cmd: "mkdir", Doc: d.doc, DocName: d.name, Args: args, Input: "stdin", Extra: "stray", Stdout: "pipe", Target: "dir"})
 					add(c16Case{Cmd: "mkdir", Doc: d.doc, DocName: d.name, Args: args, Input: "stdin", Extra: "unknown", Stdout: "pipe", Target: "dir"})
+					add(c16Case{Cmd: "mkdir", Doc: d.doc, DocName: d.name, Args: args, Input: "stdin", Extra: "empty-first", Stdout: "pipe", Target: "dir"})
+					add(c16Case{Cmd: "mkdir", Doc: d.doc, DocName: d.name, Args: args, Input: "devstdin", Stdout: "pipe", Target: "dir"})
 					if dry {
 						add(c16Case{Cmd: "mkdir", Doc: d.doc, DocName: d.name, Args: args, Input: "stdin", Stdout: "full", Target: "dir"})
 					}
@@ -386,6 +414,8 @@ func init() {
 				}
 				add(c16Case{Cmd: "verify", Doc: d.doc, DocName: d.name, Args: args, Input: "missing", Stdout: "pipe", Target: "dir"})
 				add(c16Case{Cmd: "verify", Doc: d.doc, DocName: d.name, Args: args, Input: "stdin", Extra: "stray", Stdout: "pipe", Target: "dir"})
+				add(c16Case{Cmd: "verify", Doc: d.doc, DocName: d.name, Args: args, Input: "stdin", Extra: "empty-first", Stdout: "pipe", Target: "dir", Pre: map[string]byte{"a/b": 'd', "a/c.go": 'f', "a/extra": 'd'}})
+				add(c16Case{Cmd: "verify", Doc: d.doc, DocName: d.name, Args: args, Input: "fifo", Stdout: "pipe", Target: "dir", Pre: map[string]byte{"a/b": 'd', "a/c.go": 'f'}})
 			}
 		}
 		// aliases of subcommands and flags, the massive timeout flag, the description template
